@@ -47,8 +47,16 @@ def cells(tier):
     out.append(Cell(pid=PID, cid='C08/free-tag/ElementAction-entry/len1-18', harness='h_classify:free_tag_cell',
                     params={'maxlen': 18, 'entry': 'ElementAction'}, sym=[('tag', 'str')],
                     pre=["re.fullmatch('[A-Za-z]{1,18}', tag)"], timeout=max(T, 120), cost=60, example={'tag': 'roCreate'}))
-    for tshape in ('absent', 'empty', 's', 's+i', 's+ii', 'blank-s+blank-i', 'blank-s'):
-        for sshape in ('absent', 'empty', 'ids', 'iids', 'stories', 'items', 'sid+iid'):
+    # two recognised message elements in one document
+    for i in range(len(TAGS)):
+        out.append(Cell(pid=PID, cid='C08/two-message-elements/first-%s' % TAGS[i], harness='h_classify:two_messages_cell',
+                        params={}, sym=[('i', 'int'), ('j', 'int'), ('c0', 'str')],
+                        pre=['i == %d' % i, '0 <= j < %d' % len(TAGS), 'i != j', 'len(c0) == 1', '32 <= ord(c0) <= 126'],
+                        timeout=T, cost=16))
+    shapes_t = ('absent', 'empty', 's', 's+i', 's+ii', 'blank-s+blank-i', 'blank-s', 's-then-s+i', 's+i-then-s')
+    shapes_s = ('absent', 'empty', 'ids', 'iids', 'stories', 'items', 'sid+iid', 'ids-then-iids', 'iids-then-ids')
+    for tshape in shapes_t:
+        for sshape in shapes_s:
             P = {'tshape': tshape, 'sshape': sshape}
             sym = [('o', 'int'), ('c0', 'str')]
             pre = ['0 <= o < %d' % len(OPERATIONS), 'len(c0) == 1', '32 <= ord(c0) <= 126']
